@@ -162,20 +162,31 @@ func c18w(c *ctx) {
 	if c.thorough {
 		cfgs = append(cfgs, wconfig{"NewWriterSize", 126, "server", 1, false, nil}, wconfig{"GetWriter", 64, "client", 1, false, nil})
 	}
+	// writers whose Size() is a class of the writer pool (128, 256): only these really come back from
+	// GetWriter after PutWriter - used with the pool cycle only, towards either side
+	poolFrom := len(cfgs)
+	cfgs = append(cfgs, wconfig{"NewWriterSize", 128, "server", 1, false, nil}, wconfig{"NewWriterSize", 128, "client", 2, false, nil}, wconfig{"GetWriter", 256, "server", 2, false, nil})
 	// ResetOp with the writer's own opcode and with another one (judged by the monitor: the next message
 	// starts afresh, extensions and flush mode stay)
-	resets := []wop{{"Reset", "server/1", ""}, {"Reset", "client/2", ""}, {"PutGet", "server/2", ""}, {"ResetOp", "1", ""}, {"ResetOp", "2", ""}}
+	resets := []wop{{"Reset", "server/1", ""}, {"Reset", "client/2", ""}, {"PutGet", "server/2", ""}, {"ResetOp", "1", ""}, {"ResetOp", "2", ""}, {"PutGet", "client/1", ""}}
 	n := 0
 	for ci, cf := range cfgs {
 		d := depth
 		if ci > 1 {
-			d = 2 // (budget: the two larger configurations with depth-2 histories)
+			d = 2 // (budget: the larger configurations with depth-2 histories)
 		}
+		pooled := ci >= poolFrom
 		seqs(wHistAlphabet, d, func(h []wop) {
 			for _, fa := range []int{0, 1, 2} {
 				for ri, rs := range resets {
 					n++
 					if !c.thorough && (n%3 != 0) && fa != 1 {
+						continue
+					}
+					if pooled != (rs.Name == "PutGet") && (pooled || rs.Arg == "client/1") {
+						continue // pool-class writers take the pool cycle only; the cycle towards the client side is theirs
+					}
+					if pooled && !c.thorough && n%2 == 0 && fa != 0 {
 						continue
 					}
 					if c.thorough && rs.Name == "ResetOp" && (ci > 1 || fa == 2) {
